@@ -138,6 +138,31 @@ def rule_types(tree: Tree) -> RuleResult:
             got2[v] = [dotted(x.func) for s in c.body for x in ast.walk(s) if isinstance(x, ast.Call) and (dotted(x.func) or "").startswith("self.handle_")]
     ok = got2.get(1) == ["self.handle_tls_client_hello"] and got2.get(2) == ["self.handle_tls_server_hello"] and mt2 and src(mt2[0].subject) == "record.binary[0]"
     r.ob(ok, Finding("T4t", "session:Session.handle_tls_handshake_record:handshake-types", f"handshake type 1 → ClientHello, 2 → ServerHello, read from record.binary[0]; found {got2}", hh.module.line(hh.node)))
+    # only a record that *starts* a handshake message is dispatched by its first byte: a message longer than one record (Certificate) continues in the next
+    # record, whose first byte is data (0x01 there would be taken for a ClientHello and close the decryption gate of the connection)
+    r.instances += 1
+    cfgh = cfg_of(hh.node)
+    disp = [n for n in cfgh.nodes if n.kind == "stmt" and any(isinstance(c, ast.Call) and dotted(c.func) in ("self.handle_tls_client_hello", "self.handle_tls_server_hello") for c in ast.walk(n.ast))]
+    pend_ok = bool(disp)
+    pend_vars = set()
+    for n in disp:
+        facts = [(e, t) for e, t in cfgh.facts_at(n.id)]
+        z = [dotted(e.left) for e, t in facts if t and isinstance(e, ast.Compare) and len(e.ops) == 1 and isinstance(e.ops[0], ast.Eq) and try_fold(e.comparators[0]) == 0 and dotted(e.left)]
+        if not z:
+            pend_ok = False
+        pend_vars |= set(z)
+    # the counter is per direction and is recomputed from the message headers of every record
+    per_dir = {}
+    for n in cfgh.nodes:
+        if n.kind == "stmt" and isinstance(n.ast, ast.Assign) and (dotted(n.ast.targets[0]) or "").startswith("self.handshake_pending_"):
+            d = "server" if fact_holds(cfgh.facts_at(n.id), "isserver", True) else "client" if fact_holds(cfgh.facts_at(n.id), "isserver", False) else "?"
+            per_dir[d] = dotted(n.ast.targets[0])
+    walk = any(isinstance(n, ast.While) and "len(record.binary)" in src(n.test) and any(isinstance(x, ast.AugAssign) and "int.from_bytes(record.binary[" in src(x.value, 200) for x in ast.walk(n))
+               for n in body_walk(hh.node))
+    r.ob(pend_ok and per_dir == {"server": "self.handshake_pending_server", "client": "self.handshake_pending_client"} and walk,
+         Finding("T4t", "session:Session.handle_tls_handshake_record:message-start-only",
+                 f"plaintext handshake records are dispatched by their first byte only when no earlier message is still incomplete (per-direction counter == 0, recomputed by walking the "
+                 f"message headers of each record); found gate on {sorted(pend_vars) or 'nothing'}, counters {per_dir}, header walk {walk}", hh.module.line(hh.node)))
     # Finished = 20 triggers the key switch
     hd = tree.func("session", "Session.handle_decrypted_tls_13_handshake_record")
     cfg = cfg_of(hd.node)
